@@ -13,7 +13,7 @@ CLAIMED = {
    technique="contract-based deductive verification: VC generation over go/ssa, SMT (z3/cvc5)", ref="7 C02"),
  "C07": dict(level="proof",
    text="For the decoders under contract (ReadN, fixed-width readers, ReadString, Header/Message.Read, all dynamic-value decoders, all TypeReaders, ReadCapabilityMap, the generated meta-object/object-reference/service-info decoders) with NO precondition on the bytes: every index/slice/nil/make/type-assertion/division obligation of the safety sweep, every data-dependent allocation bounded by a named limit (alloc#n), every loop with a decreases clause, and loops whose trip count comes from the wire must make progress (progress#n).",
-   note="Covered entry points: message, basic, dynamic values, signature-driven readers, capability map, generated meta-object / object-reference / service-info decoders (type/object, bus/directory). NOT covered (listed so nothing is over-claimed): reflection decoder, the other generated files' decoders (logger, services proxy), stub argument decoders beyond the Object stub; signature.Parse and the IDL parser (goparsec) are outside the verifier's reach (no bounded stand-in built yet). Memory/time 'modest multiple' is covered only through alloc bounds + progress, not a quantitative meter.",
+   note="Covered entry points: message, basic, dynamic values, signature-driven readers, capability map, generated meta-object / object-reference / service-info decoders (type/object, bus/directory). NOT covered (listed so nothing is over-claimed): reflection decoder, the other generated files' decoders (logger, services proxy), stub argument decoders beyond the Object stub; signature.Parse (goparsec, outside the verifier's reach) is covered only by a BOUNDED stand-in (all strings of length <= 3 (thorough: 4) over the signature alphabet; nesting sweep to depth 16 (22) with a linear time budget), labelled bounded in the evidence and never counted as proved; the IDL parser is not claimed. Memory/time 'modest multiple' is covered only through alloc bounds + progress, not a quantitative meter.",
    technique="contract-based deductive verification: zero-precondition safety sweep + alloc/progress obligations, SMT", ref="7 C07"),
  "C08": dict(level="proof",
    text="Sticky-failure ghost r.short: ReadN sets it exactly when it fails and fails whenever fewer than length bytes remain; every decoder under contract is verified to return an error whenever r.short became true during the call (no swallowed error) and, for fixed-width decoders, whenever fewer bytes than needed remain.",
